@@ -14,6 +14,7 @@ FILES = ['cherab/core/model/beam/charge_exchange.pyx', 'cherab/core/model/beam/b
 def check(run):
     prog = Program()
     prog.load_many(FILES)
+    _PROG[0] = prog
     for f in FILES:
         run.use_file(f)
     run.explanation = (
@@ -40,11 +41,20 @@ def check(run):
     check_caches(run, [m_ for m_ in prog.modules.values() if m_.relpath in set(FILES) and not m_.name.endswith('#pxd')], 'C05-K', prog=prog)
 
 
+_PROG = [None]
+
+
 def _m(ci, name):
     fn = ci.methods.get(name)
     if fn is None:
         raise AnalysisError('anchored method vanished: %s.%s' % (ci.name, name))
-    return fn
+    # module-level private helpers (shared sub-computations hoisted out of the methods) are read where they are called; the methods
+    # themselves are the anchors of the rules and stay calls
+    from ..inline import flatten, module_lookup
+    try:
+        return flatten(fn, module_lookup(ci.mod, prog=_PROG[0]))
+    except Exception:
+        return fn
 
 
 def _paths(fn, sinks=()):
